@@ -8,6 +8,7 @@ CONSTANTS
   MaxRestarts = 1
   FlushOnRotate = FALSE
   TornTailIsEOF = FALSE
+  EncodeCuts = {}
 INVARIANTS TypeOK PrefixThenEnd MarkerSound Export
 ACTION_CONSTRAINT Edge
 VIEW View
